@@ -207,12 +207,15 @@ def join_aux(source_name, source_key, source_delete,  # noqa: C901
                 agg = spec['aggregate']
                 if agg != 'count':
                     new = row.get(name)
+                elif name in row and row[name] is None:
+                    # count with a source field name counts that field's non-null values
+                    new = None
                 else:
                     new = ''
                 if new is not None:
                     current[field] = AGGREGATORS[agg].func(curr, new)
                 elif field not in current:
-                    current[field] = None
+                    current[field] = 0 if agg == 'count' else None
             if mode == 'full-outer':
                 current['__key__'] = [row.get(field) for field in source_key.key_list]
             db.set(key, current)
